@@ -40,25 +40,47 @@ EXTRA = [["e-(aq) + OH -> OH-", "e-(aq) + H+ -> H", "H + OH -> H2O"], ["e-(aq) +
 REPLAY = '''
 from chempy import ReactionSystem, Substance
 from chempy.kinetics.ode import get_odesys
+import numpy as np
 rxn_strs = %(rxns)r
 y = %(y)s
 f = %(f)s
-rsys = ReactionSystem.from_string("\\n".join(s + "; 1" for s in rxn_strs), substance_factory=Substance.from_formula)
-odesys, extra = get_odesys(rsys)
-names = list(rsys.substances)
-yv = [float(y[n]) for n in names]
-fv = [float(f[n]) for n in names]
-import numpy as np
-odesys.f_cb = lambda *a, **k: np.array(fv)      # stub stated in the obligation: arbitrary derivative vector (numpy array, as the real callback returns)
-h = extra["max_euler_step_cb"](0, dict(zip(names, yv)))
-ub = rsys.upper_conc_bounds(yv)
+soft = %(soft)r
 bad = []
-if not (h == h and 0 <= h <= 1): bad.append("h = %%r outside [0, 1]" %% h)
-for n, yi, fi, u in zip(names, yv, fv, ub):
-    new = yi + h * fi
-    if new < -1e-12 * max(1, abs(yi)) or new > u * (1 + 1e-12) + 1e-300: bad.append("%%s: %%r + h*%%r = %%r outside [0, %%r]" %% (n, yi, fi, new, u))
-print("h =", h)
-for b in bad: print("MISMATCH", b)
+
+
+def run(yv, fv):
+    rsys = ReactionSystem.from_string("\\n".join(s + "; 1" for s in rxn_strs), substance_factory=Substance.from_formula)
+    odesys, extra = get_odesys(rsys)
+    names = list(rsys.substances)
+    calls = []
+    def f_stub(*a, **k):   # stub stated in the obligation: arbitrary derivative vector (numpy array, as the real callback returns)
+        calls.append(1)
+        return np.array([float((-1) ** i * (i + 1)) for i in range(len(names))]) if len(calls) == 1 else np.array(fv)
+    odesys.f_cb = f_stub
+    cb = extra["max_euler_step_cb"]
+    cb(0, dict(zip(names, [3.0 + i for i in range(len(names))])))   # history: an earlier query of the same callback for another state
+    arr = np.array(yv, dtype=float)
+    h1 = cb(0, arr)                                # the query, state given as the caller's own array
+    h2 = cb(0, arr)                                # and once more on the same array
+    ub = rsys.upper_conc_bounds(yv)
+    for label, h in (("first query", h1), ("repeated query on the same array", h2)):
+        if not (h == h and 0 <= h <= 1): bad.append("y=%%s f=%%s %%s: h = %%r outside [0, 1]" %% (yv, fv, label, h))
+        for n, yi, fi, u in zip(names, yv, fv, ub):
+            new = yi + h * fi
+            if new < -1e-12 * max(1, abs(yi)) or new > u * (1 + 1e-12) + 1e-300:
+                bad.append("y=%%s f=%%s %%s: %%s: %%r + h*%%r = %%r outside [0, %%r]" %% (yv, fv, label, n, yi, fi, new, u))
+    print("h =", h1, h2)
+
+
+names0 = list(ReactionSystem.from_string("\\n".join(s + "; 1" for s in rxn_strs), substance_factory=Substance.from_formula).substances)
+points = [([float(y[n]) for n in names0], [float(f[n]) for n in names0])]
+if soft:   # the candidate came from a path the number wrapper could not carry: also look at two generic points (witness search)
+    n_ = len(names0)
+    points.append(([0.3 + 0.2 * i for i in range(n_)], [(-1.0) ** i * (0.5 + i) for i in range(n_)]))
+    points.append(([1.5 - 0.1 * i for i in range(n_)], [(-1.0) ** (i + 1) * (2.0 + 0.5 * i) for i in range(n_)]))
+for yv, fv in points:
+    run(yv, fv)
+for b in bad[:8]: print("MISMATCH", b)
 sys.exit(1 if bad else 0)
 '''
 
@@ -75,42 +97,63 @@ def _task_euler(systems):
     res = dict(engine="Z", functions=[env.describe(get_odesys), env.describe(ReactionSystem.upper_conc_bounds)], obligations=0, discharged=0,
                violations=[], inconclusive=[], queries=0, paths=0, solver_s=0.0, bounds="%d systems; all y >= 0, all real f" % len(systems))
     tw = None
+    import numpy as np
+
     for rxn_strs in systems:
-        rsys = ReactionSystem.from_string("\n".join(s + "; 1" for s in rxn_strs), substance_factory=Substance.from_formula)
-        odesys, extra = get_odesys(rsys)
-        cb = extra["max_euler_step_cb"]
-        if cb is None:
+        text = "\n".join(s + "; 1" for s in rxn_strs)
+        rsys0 = ReactionSystem.from_string(text, substance_factory=Substance.from_formula)
+        if get_odesys(rsys0)[1]["max_euler_step_cb"] is None:
             res["inconclusive"].append("no max_euler_step_cb for %s" % rxn_strs)
             continue
-        names = list(rsys.substances)
+        names = list(rsys0.substances)
         y = [Real("y_%d" % i) for i in range(len(names))]
         f = [Real("f_%d" % i) for i in range(len(names))]
         assum = [v.t >= 0 for v in y]
-        real_ub = rsys.upper_conc_bounds
-        odesys.to_arrays = lambda x_, y_, p_=(): ([x_], list(y_), list(p_))
-        odesys.pre_process = lambda x_, y_, p_=(): (x_, y_, p_)
-        odesys.f_cb = lambda *a, **k: list(f)
-        rsys.upper_conc_bounds = lambda yy, **kw: real_ub(yy, dtype=object, **kw)
 
         def fn():
-            h = cb(0, list(y))
+            # fresh objects on every path (nothing a previous path left in a closure or on the system can leak into this one)
+            rsys = ReactionSystem.from_string(text, substance_factory=Substance.from_formula)
+            odesys, extra = get_odesys(rsys)
+            cb = extra["max_euler_step_cb"]
+            real_ub = rsys.upper_conc_bounds
+            # stubs: pyodesys' float conversion is replaced by a pass-through that, like the real one, hands an ndarray on unchanged
+            odesys.to_arrays = lambda x_, y_, p_=(): ([x_], y_ if isinstance(y_, np.ndarray) else list(y_), list(p_))
+            odesys.pre_process = lambda x_, y_, p_=(): (x_, y_, p_)
+            calls = []
+
+            def f_stub(*a, **k):
+                calls.append(1)
+                if len(calls) == 1:
+                    return np.array([(-1) ** i * (i + 1) for i in range(len(names))], dtype=object)  # the earlier query: concrete derivative
+                return np.array(f, dtype=object)
+
+            odesys.f_cb = f_stub
+            rsys.upper_conc_bounds = lambda yy, **kw: real_ub(yy, dtype=object, **kw)
+            # history: the same callback was asked before for another, concrete state (3, 4, 5, ...: no symbolic decisions), then it is
+            # asked for y with the caller's own array, twice; every answer must be a safe step for y
+            cb(0, [3 + i for i in range(len(names))])
+            arr = np.array(y, dtype=object)
+            h1 = cb(0, arr)
+            h2 = cb(0, arr)
             ub = real_ub(list(y), dtype=object)
-            return h, ub
+            return (h1, h2), ub
 
         def goal(p, twin=False):
             if p.kind == "exc":
                 return False
-            h, ub = p.value
-            ht = lift(h)
-            if ht is None:
-                return False  # h is not a finite number (inf / nan): the step is useless or unsafe
-            conds = [ht >= 0, ht <= (1 if not twin else z3.Q(1, 2))]
-            for yi, fi, u in zip(y, f, ub):
-                new = yi.t + ht * fi.t
-                conds.append(new >= 0)
-                ut = lift(u)
-                if ut is not None:
-                    conds.append(new <= ut)
+            hs, ub = p.value
+            conds = []
+            for h in hs:
+                ht = lift(h)
+                if ht is None:
+                    return False  # h is not a finite number (inf / nan): the step is useless or unsafe
+                conds += [ht >= 0, ht <= (1 if not twin else z3.Q(1, 2))]
+                for yi, fi, u in zip(y, f, ub):
+                    new = yi.t + ht * fi.t
+                    conds.append(new >= 0)
+                    ut = lift(u)
+                    if ut is not None:
+                        conds.append(new <= ut)
             return z3.And(*conds)
 
         o = explore_and_prove(fn, assum, goal, max_paths=200000, deadline_s=DEADLINE[0], timeout_ms=30000, numpy_div=True)
@@ -124,7 +167,7 @@ def _task_euler(systems):
             yv = dict(zip(names, concretize(m, y)))
             fv = dict(zip(names, concretize(m, f)))
             res["violations"].append(dict(key="euler_step:%s" % p.kind, soft=wrapper_exc(p.value), desc="system %s y=%s f=%s -> %r" % (rxn_strs, yv, fv, p.value),
-                                          replay_src=REPLAY % dict(rxns=rxn_strs, y=pyrepr(yv), f=pyrepr(fv))))
+                                          replay_src=REPLAY % dict(rxns=rxn_strs, y=pyrepr(yv), f=pyrepr(fv), soft=bool(wrapper_exc(p.value)))))
         if tw is None:
             ot = explore_and_prove(fn, assum, lambda p: goal(p, True), max_paths=60000, deadline_s=60, max_fail=1, numpy_div=True)
             tw = twin_verdict(ot)
